@@ -48,7 +48,7 @@ func newSW(s *core.Sim, park bool) *SW {
 		StoreCacheSize: core.Pick(s.Tape, "cache", cacheKnob),
 		IndexCacheSize: core.Pick(s.Tape, "icache", cacheKnob),
 	}
-	w.Flav = core.Pick(s.Tape, "flavour", []string{"plain", "ctx"})
+	w.Flav = core.Pick(s.Tape, "flavour", []string{"plain", "ctx", "snap"})
 	first := core.Pick(s.Tape, "first", []uint64{1, 1, 7, 1000})
 	w.Ch = simhdr.NewChain("sim-chain", first, time.Now().Add(-1000*time.Hour), 3*time.Second)
 	w.Disk = simdisk.New("d0", s)
